@@ -13,6 +13,8 @@ type Multi struct {
 	Property string
 	Parts    []Harness
 	Weights  []int
+	// Quick/Thor: total runs per tier (0 = sum of the parts' own sizes)
+	Quick, Thor int
 	// Share of the batch sizes: runs = sum over parts (so that each part keeps
 	// its own depth)
 }
@@ -34,6 +36,12 @@ func (m Multi) Version() string {
 
 // Runs implements Harness.
 func (m Multi) Runs(tier string) int {
+	if tier == "thorough" && m.Thor > 0 {
+		return m.Thor
+	}
+	if tier != "thorough" && m.Quick > 0 {
+		return m.Quick
+	}
 	n := 0
 	for _, p := range m.Parts {
 		n += p.Runs(tier)
